@@ -102,6 +102,7 @@ package tmstate
 //@   ensures timer-inv: TimerInv(rlc) || Idle(rlc)
 //@   ensures fails-only-with-the-environment: !result ==> envfailed()
 //@   ensures later-round-of-the-height: rlc.H == old(rlc.H) && rlc.R > old(rlc.R)
+//@   ensures ready-kept: smReady(m, rlc)
 //@   modifies heap
 //@ func StateMachine.advanceHeight
 //@   property C08 C10 C12
@@ -111,6 +112,7 @@ package tmstate
 //@   ensures timer-inv: TimerInv(rlc) || Idle(rlc)
 //@   ensures fails-only-with-the-environment: !result ==> envfailed()
 //@   ensures next-height: rlc.H == old(rlc.H) + 1
+//@   ensures ready-kept: smReady(m, rlc)
 //@   modifies heap
 //@ func StateMachine.advance
 //@   property C08 C10 C12
@@ -125,6 +127,7 @@ package tmstate
 //@   ensures timer-inv: TimerInv(rlc) || Idle(rlc)
 //@   ensures fails-only-with-the-environment: !result ==> envfailed()
 //@   ensures same-height-no-earlier-round: rlc.H == old(rlc.H) && rlc.R >= old(rlc.R)
+//@   ensures ready-kept: smReady(m, rlc)
 //@   modifies heap
 
 //@ func StateMachine.recordPrevote
@@ -163,15 +166,20 @@ package tmstate
 //@   requires blockQuorum(vrv.VoteSummary)
 //@   requires timers(0) == 0
 //@   ensures commit-wait-armed: rlc.S == tsi.StepCommitWait && TimerInv(rlc) && rlc.H == old(rlc.H) && rlc.R == old(rlc.R)
+//@   ensures ready-kept: old(smReady(m, rlc)) ==> smReady(m, rlc)
 //@   ensures[C08,C09] fails-only-with-the-environment: !result ==> envfailed()
 //@   modifies heap
 
+//@ define endsRound(vs) = (3 * vs.PrecommitBlockPower[vs.MostVotedPrecommitHash] > 2 * vs.AvailablePower && vs.MostVotedPrecommitHash == "") ||
+//@     (3 * vs.TotalPrecommitPower > 2 * vs.AvailablePower && vs.TotalPrecommitPower == vs.AvailablePower)
 //@ define smReady(m, rlc) = m.smStore != nil && m.cm != nil && rlc.PrevConsideredHashes != nil
 //@ func StateMachine.handlePrecommitViewUpdate
 //@   property C08 C12
 //@   requires TimerInv(rlc) && vrv.VoteSummary.AvailablePower > 0 && smReady(m, rlc)
 //@   requires rlc.S == tsi.StepAwaitingPrecommits || rlc.S == tsi.StepPrecommitDelay
 //@   ensures timer-inv-kept: TimerInv(rlc) || Idle(rlc)
+//@   ensures[C08] round-left-only-when-the-view-ends-it: rlc.R != old(rlc.R) ==> old(endsRound(vrv.VoteSummary))
+//@   ensures ready-kept: smReady(m, rlc)
 //@   ensures[C08] forward-only: rlc.H == old(rlc.H) && rlc.R >= old(rlc.R)
 //@   modifies heap
 
@@ -180,6 +188,8 @@ package tmstate
 //@   requires TimerInv(rlc) && vrv.VoteSummary.AvailablePower > 0 && rlc.PrecommitHashCh != nil && smReady(m, rlc)
 //@   requires rlc.S == tsi.StepAwaitingPrevotes || rlc.S == tsi.StepPrevoteDelay
 //@   ensures timer-inv-kept: TimerInv(rlc) || Idle(rlc)
+//@   ensures[C08] round-left-only-when-the-view-ends-it: rlc.R != old(rlc.R) ==> old(endsRound(vrv.VoteSummary))
+//@   ensures ready-kept: smReady(m, rlc)
 //@   ensures[C08] forward-only: rlc.H == old(rlc.H) && rlc.R >= old(rlc.R)
 //@   modifies heap
 
@@ -196,6 +206,8 @@ package tmstate
 //@   requires TimerInv(rlc) && rlc.S == tsi.StepAwaitingProposal && vrv.VoteSummary.AvailablePower > 0
 //@   requires rlc.VRV != nil && rlc.PrecommitHashCh != nil && rlc.PrevoteHashCh != nil && smReady(m, rlc)
 //@   ensures timer-inv-kept: TimerInv(rlc) || Idle(rlc)
+//@   ensures[C08] round-left-only-when-the-view-ends-it: rlc.R != old(rlc.R) ==> old(endsRound(vrv.VoteSummary))
+//@   ensures ready-kept: smReady(m, rlc)
 //@   ensures[C08] forward-only: rlc.H == old(rlc.H) && rlc.R >= old(rlc.R)
 //@   modifies heap
 
@@ -278,6 +290,7 @@ package tmstate
 //@   ensures timer-inv: TimerInv(rlc) || Idle(rlc)
 //@   ensures fails-only-with-the-environment: !result ==> envfailed()
 //@   ensures same-height-no-earlier-round: rlc.H == old(rlc.H) && rlc.R >= old(rlc.R)
+//@   ensures ready-kept: smReady(m, rlc)
 //@   modifies heap
 
 // ---- C08: the next height is entered only after the finalization of the current height is stored ----
@@ -314,7 +327,7 @@ package tmstate
 //@ func StateMachine.handleJumpAhead
 //@   property C08 C12
 //@   requires mirror-jumps-forward-in-the-height: vrv.Height == rlc.H && vrv.Round > rlc.R
-//@   requires TimerInv(rlc) && smReady(m, rlc)
+//@   requires timerKnown(rlc) && smReady(m, rlc)
 //@   ensures timer-inv-kept: TimerInv(rlc) || Idle(rlc)
 //@   ensures later-round-of-the-height: rlc.H == old(rlc.H) && rlc.R > old(rlc.R)
 //@   modifies heap
@@ -323,4 +336,32 @@ package tmstate
 //@   property C08 C12
 //@   requires TimerInv(rlc) && rlc.VRV != nil && blockQuorum(vrv.VoteSummary)
 //@   ensures stays: TimerInv(rlc) && rlc.H == old(rlc.H) && rlc.R == old(rlc.R) && rlc.S == old(rlc.S)
+//@   ensures ready-kept: old(smReady(m, rlc)) ==> smReady(m, rlc)
+//@   modifies heap
+
+// ---- dispatch of a view update into the step handlers (C08, C12, C09) ----
+// RInv: what the step says about the strategy answer channels still open in this round (the handlers' preconditions).
+//@ define liveStep(s) = s == tsi.StepAwaitingProposal || s == tsi.StepAwaitingPrevotes || s == tsi.StepPrevoteDelay || s == tsi.StepAwaitingPrecommits ||
+//@     s == tsi.StepPrecommitDelay || s == tsi.StepCommitWait || s == tsi.StepAwaitingFinalization
+//@ define RInv(rlc) = rlc.VRV != nil && liveStep(rlc.S) && (rlc.S == tsi.StepAwaitingProposal ==> rlc.PrevoteHashCh != nil && rlc.PrecommitHashCh != nil) &&
+//@     ((rlc.S == tsi.StepAwaitingPrevotes || rlc.S == tsi.StepPrevoteDelay) ==> rlc.PrecommitHashCh != nil)
+// What the mirror's view manager guarantees about a message (assumed here; its send side is the kernel main loop):
+// it carries a view or a jump-ahead; views have voting power; a jump-ahead names a later round of this height; a later
+// view of a round in commit wait still shows the quorum.
+//@ func StateMachine.handleViewUpdate
+//@   property C08 C12 C09
+//@   option explicit-panics-under C09
+//@   requires TimerInv(rlc) && RInv(rlc) && smReady(m, rlc) && m.wd != nil
+//@   requires mirror-sends-a-view-or-a-jump: v.VRV.Height != 0 || v.JumpAheadRoundView != nil
+//@   requires views-have-voting-power: v.VRV.Height != 0 ==> v.VRV.VoteSummary.AvailablePower > 0
+//@   requires jump-ahead-is-forward: v.JumpAheadRoundView != nil ==> v.JumpAheadRoundView.Height == rlc.H && v.JumpAheadRoundView.Round > rlc.R
+// NOT COVERED: a message carrying both a view and a jump-ahead. The handlers are specified with `modifies heap`, which
+// forgets the jump-ahead view the message points to, so its height and round cannot be carried across the handler call.
+// (The handlers' post round-left-only-when-the-view-ends-it is what that case needs: the shipped mirror never pairs a
+// jump-ahead with a view that ends the round.)
+//@   requires one-part-per-message: v.VRV.Height == 0 || v.JumpAheadRoundView == nil
+//@   requires commit-wait-quorum-stays: (rlc.S == tsi.StepCommitWait || rlc.S == tsi.StepAwaitingFinalization) && v.VRV.Height == rlc.H && v.VRV.Round == rlc.R ==>
+//@       blockQuorum(v.VRV.VoteSummary)
+//@   ensures timer-inv-kept: TimerInv(rlc) || Idle(rlc)
+//@   ensures[C08] forward-only: rlc.H == old(rlc.H) && rlc.R >= old(rlc.R)
 //@   modifies heap
